@@ -15,6 +15,8 @@
 #include <kernel/space/cro_rav_ran_tur/element.hpp>
 #include <kernel/space/bernstein2/element.hpp>
 #include <kernel/space/p2bubble/element.hpp>
+#include <kernel/space/hermite3/element.hpp>
+#include <kernel/space/bogner_fox_schmit/element.hpp>
 #include <kernel/assembly/interpolator.hpp>
 #include <kernel/analytic/function.hpp>
 #include <kernel/trafo/inverse_mapping.hpp>
@@ -131,9 +133,33 @@ namespace c15
     static constexpr int domain_dim = dim_;
     typedef Analytic::Image::Scalar ImageType;
     static constexpr bool can_value = true;
-    static constexpr bool can_grad = false;
-    static constexpr bool can_hess = false;
+    static constexpr bool can_grad = true;
+    static constexpr bool can_hess = true;
     std::vector<Q> coef; std::vector<int> expo; // expo: nterms*dim
+
+    // sum_t c_t * d/dx_a d/dx_b prod_k x_k^e_tk   (a, b = -1: no derivative), exact
+    Q deriv(const Q* p, int a, int b) const
+    {
+      Q s(0);
+      for(std::size_t t = 0; t < coef.size(); ++t)
+      {
+        std::vector<int> e(expo.begin() + long(t) * dim_, expo.begin() + long(t + 1) * dim_);
+        Q m = coef[t];
+        bool zero = false;
+        for(int d : {a, b})
+        {
+          if(d < 0) continue;
+          if(e[std::size_t(d)] == 0) { zero = true; break; }
+          m = m * Q(e[std::size_t(d)]);
+          --e[std::size_t(d)];
+        }
+        if(zero) continue;
+        for(int k = 0; k < dim_; ++k)
+          for(int j = 0; j < e[std::size_t(k)]; ++j) m = m * p[k];
+        s = s + m;
+      }
+      return s;
+    }
 
     template<typename Traits_>
     class Evaluator : public Analytic::Function::Evaluator<Traits_>
@@ -141,19 +167,20 @@ namespace c15
     public:
       typedef typename Traits_::PointType PointType;
       typedef typename Traits_::ValueType ValueType;
+      typedef typename Traits_::GradientType GradientType;
+      typedef typename Traits_::HessianType HessianType;
       const PolyFunction& f;
       explicit Evaluator(const PolyFunction& ff) : f(ff) {}
-      ValueType value(const PointType& p)
+      ValueType value(const PointType& p) { Q x[dim_]; for(int k = 0; k < dim_; ++k) x[k] = p[k]; return f.deriv(x, -1, -1); }
+      GradientType gradient(const PointType& p)
       {
-        Q s(0);
-        for(std::size_t t = 0; t < f.coef.size(); ++t)
-        {
-          Q m = f.coef[t];
-          for(int k = 0; k < dim_; ++k)
-            for(int e = 0; e < f.expo[t * dim_ + k]; ++e) m = m * p[k];
-          s = s + m;
-        }
-        return s;
+        Q x[dim_]; for(int k = 0; k < dim_; ++k) x[k] = p[k];
+        GradientType g; for(int a = 0; a < dim_; ++a) g[a] = f.deriv(x, a, -1); return g;
+      }
+      HessianType hessian(const PointType& p)
+      {
+        Q x[dim_]; for(int k = 0; k < dim_; ++k) x[k] = p[k];
+        HessianType h; for(int a = 0; a < dim_; ++a) for(int b = 0; b < dim_; ++b) h[a][b] = f.deriv(x, a, b); return h;
       }
     };
   };
@@ -180,6 +207,8 @@ namespace c15
   template<typename T_> using FamCR = Space::CroRavRanTur::Element<T_>;
   template<typename T_> using FamB2 = Space::Bernstein2::Element<T_>;
   template<typename T_> using FamPB = Space::P2Bubble::Element<T_>;
+  template<typename T_> using FamHE = Space::Hermite3::Element<T_>;
+  template<typename T_> using FamBF = Space::BognerFoxSchmit::Element<T_>;
 
   template<typename Shape_> struct IsSimplex { static constexpr bool value = false; };
   template<int n_> struct IsSimplex<Shape::Simplex<n_>> { static constexpr bool value = true; };
@@ -296,6 +325,7 @@ namespace c15
     // interp <poly> <nq> {cell pt}*  ->  I ndofs coeffs.. nq { img value grad hess }*
     static void interp(CtxType& cx, Cur& c, std::ostream& o)
     {
+      if constexpr(!SpaceType::have_node_func) { o << "UNSUPPORTED"; return; } else {
       SpaceType space(*cx.trafo);
       PolyFunction<dim> f; read_poly(c, f);
       LAFEM::DenseVector<Q, Index> vec;
@@ -329,8 +359,35 @@ namespace c15
         if constexpr(has_hess) for(int a = 0; a < dim; ++a) for(int b = 0; b < dim; ++b) o << " " << h[a][b];
         dm.finish(); se.finish(); te.finish();
       }
+      }
     }
 
+    // evpts <cell> <npts> <pts>  ->  P nloc hasgrad hashess { {value grad hess}*nloc }*npts : all local basis functions
+    // in real coordinates at several reference points of one cell (used at the cell's vertices: the oracle applies the
+    // definition of the derivative node functionals to these numbers)
+    static void evpts(CtxType& cx, Cur& c, std::ostream& o)
+    {
+      SpaceType space(*cx.trafo);
+      Index cell = Index(c.idx());
+      std::size_t np = c.idx();
+      TrafoEvaluator te(*cx.trafo); SpaceEvaluator se(space);
+      te.prepare(cell); se.prepare(te);
+      int nl = se.get_num_local_dofs();
+      o << "P " << nl << " " << int(has_grad) << " " << int(has_hess);
+      for(std::size_t q = 0; q < np; ++q)
+      {
+        DomPoint pt = read_point(c);
+        TrafoData td; SpaceData sd;
+        te(td, pt); se(sd, td);
+        for(int i = 0; i < nl; ++i)
+        {
+          o << " " << Q(sd.phi[i].value);
+          if constexpr(has_grad) pv(o, sd.phi[i].grad, dim);
+          if constexpr(has_hess) for(int a = 0; a < dim; ++a) pv(o, sd.phi[i].hess[a], dim);
+        }
+      }
+      se.finish(); te.finish();
+    }
 
     // ---------------------------------------------------------------------------------------------------
     // evcfg <cell> <pt> <mask> <poison>: evaluate with exactly the requested SpaceTags mask (FEAT bit values:
@@ -436,6 +493,7 @@ namespace c15
     {
       if(op == "ev") ev(cx, c, o);
       else if(op == "evcfg") evcfg(cx, c, o);
+      else if(op == "evpts") evpts(cx, c, o);
       else if(op == "caps") capsop(cx, c, o);
       else if(op == "ref") ref(cx, c, o);
       else if(op == "dofs") dofs(cx, c, o);
